@@ -60,10 +60,21 @@ def _orient(st, ra, a, rb, b):
     return ra, a, rb, b
 
 
+def _same_region_orient(st, r, a, b):
+    """two ranges of ONE region (aliasing operands): the orientation already recorded, if it fits"""
+    cur = get(st, r, r)
+    if cur is not None and st.store.entails_eq(cur[0] - (a - b)) and not st.store.entails_eq(cur[0] - (b - a)):
+        return b, a
+    return a, b
+
+
 def on_equal(I, st, ra, a, rb, b, size):
     if ra == rb:
-        return
-    ra, a, rb, b = _orient(st, ra, a, rb, b)
+        if st.store.entails_eq(a - b):
+            return                      # a range compared with itself
+        a, b = _same_region_orient(st, ra, a, b)
+    else:
+        ra, a, rb, b = _orient(st, ra, a, rb, b)
     s = st.store
     d = b - a
     cur = get(st, ra, rb)
@@ -82,26 +93,48 @@ def on_equal(I, st, ra, a, rb, b, size):
 
 
 def on_differ(I, st, ra, a, rb, b, size):
-    if ra == rb:
+    if ra == rb and st.store.entails_eq(a - b):
         return
     if ra > rb:
         ra, a, rb, b = rb, b, ra, a
     st.ghost['eqdiff'] = tuple(st.ghost.get('eqdiff', ())) + ((ra, a, rb, b, size),)
 
 
-def covered(st, ra, a, rb, b, n):
+def covered(st, ra, a, rb, b, n, I=None):
     """is A[a .. a+n) == B[b .. b+n) known?  (n may be symbolic; an empty range is trivially covered)"""
     s = st.store
     if s.entails_le(n):
         return True
     if ra == rb:
-        return s.entails_eq(a - b)
+        if s.entails_eq(a - b):
+            return True                 # the same bytes
+        cur = get(st, ra, rb)
+        if cur is None:
+            return False
+        d, lo, hi = cur
+        return ((s.entails_eq(d - (b - a)) and s.entails_le(lo - a) and s.entails_le(a + n - hi))
+                or (s.entails_eq(d - (a - b)) and s.entails_le(lo - b) and s.entails_le(b + n - hi)))
+    if I is not None and _ptreq_empty(I, st, ra, a, rb, b, n):
+        return True
     ra, a, rb, b = _orient(st, ra, a, rb, b)
     cur = get(st, ra, rb)
     if cur is None:
         return False
     d, lo, hi = cur
     return s.entails_eq(d - (b - a)) and s.entails_le(lo - a) and s.entails_le(a + n - hi)
+
+
+def _ptreq_empty(I, st, ra, a, rb, b, n):
+    """the addresses A+a and B+b of two DISTINCT allocations compared equal: live allocations do not
+    overlap, so one of the two is one-past-the-end; if n bytes are in bounds at both, n == 0"""
+    s = st.store
+    for (xa, oa, xb, ob) in st.ghost.get('ptreq', ()):
+        for (pa, po, qa, qo) in ((ra, a, rb, b), (rb, b, ra, a)):
+            if xa == pa and xb == qa and s.entails_eq(oa - po) and s.entails_eq(ob - qo):
+                La, Lb = I.regions[pa].L, I.regions[qa].L
+                if La is not None and Lb is not None and s.entails_le(po + n - V(La)) and s.entails_le(qo + n - V(Lb)):
+                    return True
+    return False
 
 
 def diff_inside(st, ra, a, rb, b, n):
@@ -112,6 +145,8 @@ def diff_inside(st, ra, a, rb, b, n):
     for (xa, oa, xb, ob, k) in st.ghost.get('eqdiff', ()):
         if xa == ra and xb == rb and s.entails_eq((ob - oa) - (b - a)) and s.entails_le(a - oa) and s.entails_le(oa + k - (a + n)):
             return True
+        if ra == rb and xa == ra and xb == rb and s.entails_eq((oa - ob) - (b - a)) and s.entails_le(a - ob) and s.entails_le(ob + k - (a + n)):
+            return True                 # same region, witness recorded with the operands the other way round
     return False
 
 
@@ -163,7 +198,7 @@ def saturate(I, st, atom):
     if bp is None:
         return
     (r1, o1), (r2, o2) = bp
-    if r1 != r2 and covered(st, r1, o1, r2, o2, C(1)):
+    if covered(st, r1, o1, r2, o2, C(1)) and not (r1 == r2 and st.store.entails_eq(o1 - o2)):
         st.store.add_eq(atom[1])
 
 
